@@ -7,7 +7,7 @@ from ..core import (AnalysisIncomplete, call_name, const_value, kwarg,
                     walk_local)
 from ..patterns import (Cmp, assigns_to, calls_in, check_no_arg_mutation,
                         conjuncts, finfo, returns_of, subscript_stores)
-from ..match import C, CS
+from ..match import C, CS, canon, classify
 
 PA = 'enspara/tpt/path.py'
 
@@ -41,102 +41,254 @@ def check(ck):
 
 
 def d2_top_path(ck, mod):
+    """Widest-path search.  The constructs are located by ROLE (which object
+    is popped from, which array is indexed by the queue inside the pop
+    argument, ...) and compared after expanding temporaries (fi.xu), so the
+    rule is independent of local names and of which sub-expressions carry a
+    name.  An unrecognised shape is reported as analysis-incomplete; a
+    violation is reported only for a recognised construct with a semantically
+    relevant position changed (match.classify: near)."""
     rule = 'C17.D2.search'
     fn = mod.func('top_path')
     ck.analysed(mod, fn)
     fi = finfo(mod, fn)
     sources, sinks, nf = params(fn)[:3]
-    loops = [l for l in fn.body if isinstance(l, ast.While)]
-    if not loops:
-        ck.missing(rule, 'search loop')
+    F = 'top_path'
+
+    # --- the frontier: `<tn> = Q.pop(<pos>)` inside a while loop over Q
+    pops = [(l, c) for l in walk_local(fn) if isinstance(l, ast.While)
+            for c in calls_in(l) if isinstance(c.func, ast.Attribute) and c.func.attr == 'pop' and isinstance(c.func.value, ast.Name)]
+    if not pops:
+        ck.missing(rule + '.pop', 'no `<queue>.pop(...)` inside a while loop in top_path: search loop not recognised')
         return
-    loop = loops[0]
-    ck.check(u(loop.test) in CS('len(queue) > 0', 'queue', 'len(queue) != 0', 'len(queue)'), rule + '.loop', mod, loop, 'top_path', u(loop.test),
-             'search runs until the frontier is empty', 'the search loop must run while the queue is non-empty')
-    # initialisation
-    init = {u(s.targets[0]): s for s in fn.body if isinstance(s, ast.Assign) and isinstance(s.targets[0], ast.Name)}
-    mf = init.get('min_fluxes')
-    ok = mf is not None and u(mf.value) in ('np.ones(n_states) * -1 * np.inf', '-np.inf * np.ones(n_states)', 'np.full(n_states, -np.inf)')
-    ck.check(ok, rule + '.init', mod, mf or fn, 'top_path', u(mf) if mf else 'min_fluxes', 'bottleneck-so-far starts at -inf', 'min_fluxes must start at -inf for every state')
-    src = [(s, t) for s, t in subscript_stores(fn, 'min_fluxes') if s in fn.body]
-    ok = len(src) == 1 and u(src[0][1].slice) == sources and u(src[0][0].value) == 'np.inf'
-    ck.check(ok, rule + '.init', mod, src[0][0] if src else fn, 'top_path', u(src[0][0]) if src else 'min_fluxes[sources]',
-             'sources start with infinite bottleneck', 'min_fluxes[sources] must be +inf')
-    q = init.get('queue')
-    ck.check(q is not None and u(q.value) == 'list(%s)' % sources, rule + '.init', mod, q or fn, 'top_path', u(q) if q else 'queue',
-             'frontier starts as the source set', 'the queue must start as list(sources)')
-    pn = init.get('previous_node')
-    ck.check(pn is not None and '-1' in u(pn.value), rule + '.init', mod, pn or fn, 'top_path', u(pn) if pn else 'previous_node',
-             'predecessor sentinel -1', 'previous_node must start at -1')
-    # pop
-    pop = [s for s in loop.body if isinstance(s, ast.Assign) and isinstance(s.value, ast.Call) and u(s.value.func) == 'queue.pop']
-    ok = len(pop) == 1 and pop[0].value.args and u(pop[0].value.args[0]) in ('min_fluxes[queue].argmax()', 'np.argmax(min_fluxes[queue])')
-    ck.check(ok, rule + '.pop', mod, pop[0] if pop else loop, 'top_path', u(pop[0]) if pop else 'queue.pop(...)',
-             'frontier node with the LARGEST bottleneck is expanded next',
-             'the node popped must be the queue position of argmax(min_fluxes[queue]) (widest-path Dijkstra); '
-             'argmin / plain pop() expands a worse node first and finalises sub-optimal bottlenecks')
-    tn = u(pop[0].targets[0]) if pop else 'test_node'
-    vis = [(s, t) for s, t in subscript_stores(loop, 'visited')]
-    ck.check(len(vis) == 1 and u(vis[0][1].slice) == tn and const_value(vis[0][0].value) is True, rule + '.visited', mod,
-             vis[0][0] if vis else loop, 'top_path', u(vis[0][0]) if vis else 'visited', 'popped node is finalised', 'visited[test_node] = True expected')
-    # neighbours: strictly positive entries of the row
-    nb = [s for s in loop.body if isinstance(s, ast.Assign) and u(s.targets[0]) == 'neighbors']
-    ok = len(nb) == 1 and u(nb[0].value) in CS('np.where(%s[%s, :] > 0)[0]' % (nf, tn), 'np.where(%s[%s] > 0)[0]' % (nf, tn),
-                                                'np.nonzero(%s[%s, :] > 0)[0]' % (nf, tn), 'np.flatnonzero(%s[%s, :] > 0)' % (nf, tn))
-    ck.check(ok, rule + '.neighbors', mod, nb[0] if nb else loop, 'top_path', u(nb[0]) if nb else 'neighbors',
-             'edges are exactly the strictly positive entries of the row of the expanded node',
-             'neighbours must be the entries of net_flux[test_node, :] that are > 0: a tolerance test '
-             '(isclose) hides small positive fluxes, >= 0 follows non-edges, a column slice walks edges backwards')
-    # new_fluxes = net_flux[test_node, neighbors].flatten(); clip to min_fluxes[test_node]
-    nfl = [s for s in loop.body if isinstance(s, ast.Assign) and u(s.targets[0]) == 'new_fluxes']
-    ok = len(nfl) == 1 and u(nfl[0].value) in ('%s[%s, neighbors].flatten()' % (nf, tn), '%s[%s, neighbors].copy()' % (nf, tn),
-                                                'np.array(%s[%s, neighbors])' % (nf, tn), '%s[%s, neighbors]' % (nf, tn))
-    ck.check(ok, rule + '.relax', mod, nfl[0] if nfl else loop, 'top_path', u(nfl[0]) if nfl else 'new_fluxes',
-             'candidate value = flux of the edge test_node -> neighbour', 'new_fluxes must be net_flux[test_node, neighbors]')
-    clip = [(s, t) for s, t in subscript_stores(loop, 'new_fluxes')]
-    ok = len(clip) == 1 and u(clip[0][1].slice) in CS('np.where(new_fluxes > min_fluxes[%s])' % tn, 'new_fluxes > min_fluxes[%s]' % tn) \
-        and u(clip[0][0].value) == 'min_fluxes[%s]' % tn
-    alt = [s for s in loop.body if isinstance(s, ast.Assign) and u(s.targets[0]) == 'new_fluxes' and
-           u(s.value) in ('np.minimum(new_fluxes, min_fluxes[%s])' % tn, 'np.fmin(new_fluxes, min_fluxes[%s])' % tn)]
-    ck.check(ok or len(alt) == 1, rule + '.relax', mod, (clip[0][0] if clip else (alt or [loop])[0]), 'top_path',
-             u(clip[0][0]) if clip else 'clip', 'path bottleneck = min(edge flux, upstream bottleneck)',
-             'the candidate must be clipped to the bottleneck of the path so far: min(edge flux, min_fluxes[test_node])')
-    ind = [s for s in loop.body if isinstance(s, ast.Assign) and u(s.targets[0]) == 'ind']
-    ok = len(ind) == 1 and u(ind[0].value) in CS('np.where(1 - visited[neighbors] & (new_fluxes > min_fluxes[neighbors]))',
-                                                  'np.where(~visited[neighbors] & (new_fluxes > min_fluxes[neighbors]))',
-                                                  'np.where((1 - visited[neighbors]) & (new_fluxes > min_fluxes[neighbors]))',
-                                                  'np.where(new_fluxes > min_fluxes[neighbors])')
-    ck.check(ok, rule + '.improve', mod, ind[0] if ind else loop, 'top_path', u(ind[0]) if ind else 'ind',
-             'a neighbour is updated only if its bottleneck strictly improves (and it is not finalised)',
-             'the update set must be the neighbours with new_fluxes > min_fluxes[neighbors] (strict): '
-             '< picks worse paths, >= re-queues nodes forever on ties')
-    ups = {u(t.value): (s, t) for s, t in subscript_stores(loop) if u(t.slice) == 'neighbors[ind]'}
-    ok = set(ups) == {'min_fluxes', 'previous_node'} and u(ups['min_fluxes'][0].value) == 'new_fluxes[ind]' and \
-        u(ups['previous_node'][0].value) == tn
-    ck.check(ok, rule + '.update', mod, ups.get('min_fluxes', (loop,))[0], 'top_path', '; '.join(u(s) for s, t in ups.values()),
-             'bottleneck and predecessor are written together for the same neighbours',
-             'min_fluxes[neighbors[ind]] = new_fluxes[ind] and previous_node[neighbors[ind]] = test_node must both be '
-             'present (same index set): otherwise the reported path does not realise the reported flux')
-    ext = [c for c in calls_in(loop) if u(c.func) == 'queue.extend']
-    ck.check(len(ext) == 1 and u(ext[0].args[0]) == 'neighbors[ind]', rule + '.update', mod, ext[0] if ext else loop, 'top_path',
-             u(ext[0]) if ext else 'queue.extend', 'improved neighbours join the frontier', 'queue.extend(neighbors[ind]) expected')
-    # reconstruction and reported flux
+    loop, pop = pops[0]
+    Q = pop.func.value.id
+    if not pop.args or isinstance(pop.args[0], ast.Constant):
+        ck.bad(rule + '.pop', mod, pop, F, u(pop), 'the frontier is popped by position (%s): the node expanded next must be the one with the LARGEST '
+               'bottleneck so far (widest-path Dijkstra), not the first/last queued' % u(pop))
+        return
+    v = classify(fi.expand(pop.args[0]), ['_MF[%s].argmax()' % Q, 'int(_MF[%s].argmax())' % Q])
+    ck.decide(v, rule + '.pop', mod, pop, F, u(pop), 'frontier node with the LARGEST bottleneck is expanded next',
+              'the node popped must be the queue position of argmax(<bottleneck array>[queue]) (widest-path Dijkstra); '
+              'argmin / plain pop() expands a worse node first and finalises sub-optimal bottlenecks')
+    if v[0] != 'match' or not isinstance(v[1]['_MF'], ast.Name):
+        return
+    MF = v[1]['_MF'].id
+    pst = fi.stmt(pop)
+    if not (isinstance(pst, ast.Assign) and isinstance(pst.targets[0], ast.Name)):
+        ck.missing(rule + '.pop', 'popped node is not bound to a name')
+        return
+    TN = pst.targets[0].id
+    v = classify(loop.test, ['0 < len(%s)' % Q, Q, 'len(%s) != 0' % Q, 'len(%s)' % Q, '1 <= len(%s)' % Q])
+    ck.decide(v, rule + '.loop', mod, loop, F, u(loop.test), 'search runs until the frontier is empty', 'the search loop must run while the queue is non-empty')
+
+    # --- initial state (statements before the loop)
+    def init_of(name):
+        ds = [s for s in assigns_to(fn, name) if isinstance(s, ast.Assign) and fi.cfg.dominates(s, loop) and not _inside(mod, s, loop)]
+        return ds[-1] if ds else None
+    mf0 = init_of(MF)
+    if mf0 is None:
+        ck.missing(rule + '.init', 'initialisation of %s' % MF)
+    else:
+        v = classify(fi.expand(mf0.value), ['np.ones(_N) * -1 * np.inf', '-np.inf * np.ones(_N)', 'np.full(_N, -np.inf)', 'np.ones(_N) * -np.inf',
+                                            '-np.ones(_N) * np.inf', 'np.zeros(_N) - np.inf', 'np.full(_N, -np.inf, dtype=float)',
+                                            'np.full(_N, float("-inf"))', 'np.full(shape=_N, fill_value=-np.inf)'], scope={nf, sources, sinks})
+        ck.decide(v, rule + '.init', mod, mf0, F, u(mf0), 'bottleneck-so-far starts at -inf', 'the bottleneck array must start at -inf for every state')
+    src = [(s, t) for s, t in subscript_stores(fn, MF) if not _inside(mod, s, loop) and fi.cfg.dominates(s, loop)]
+    if not src:
+        ck.missing(rule + '.init', 'store of the source bottleneck (%s[sources] = inf) before the loop' % MF)
+    else:
+        s0, t0 = src[0]
+        ok = fi.xu(t0.slice) == sources and fi.xu(s0.value) in ('np.inf', "float('inf')", 'math.inf')
+        ck.check(ok, rule + '.init', mod, s0, F, u(s0), 'sources start with infinite bottleneck', '%s[sources] must be +inf' % MF)
+    q0 = init_of(Q)
+    if q0 is None:
+        ck.missing(rule + '.init', 'initialisation of the queue')
+    else:
+        v = classify(fi.expand(q0.value, stop=(sources,)), ['list(%s)' % sources, '[_X for _X in %s]' % sources, '%s.tolist()' % sources, 'list(%s.flatten())' % sources], scope={sources})
+        ck.decide(v, rule + '.init', mod, q0, F, u(q0), 'frontier starts as the source set', 'the queue must start as list(sources)')
+
+    # --- finalisation of the popped node
+    vis = [(s, t) for s, t in subscript_stores(loop) if fi.xu(t.slice) == TN and const_value(s.value) is True]
+    if len(vis) != 1 or not isinstance(vis[0][1].value, ast.Name):
+        ck.missing(rule + '.visited', '`<visited>[%s] = True` in the search loop' % TN)
+        return
+    V = vis[0][1].value.id
+    ck.ok(rule + '.visited', mod, vis[0][0], u(vis[0][0]), 'popped node is finalised')
+
+    # --- the update: `MF[<idx>] = <val>` in the loop
+    ups = [(s, t) for s, t in subscript_stores(loop, MF) if isinstance(s, ast.Assign)]
+    if len(ups) != 1:
+        ck.missing(rule + '.update', 'exactly one store into %s inside the search loop (found %d)' % (MF, len(ups)))
+        return
+    us, ut = ups[0]
+    row = ['%s[%s, :]' % (nf, TN), '%s[%s]' % (nf, TN)]
+    nb_forms = ['np.where(0 < %s)[0]' % r for r in row] + ['np.nonzero(0 < %s)[0]' % r for r in row]
+    idx = canon(fi.expand(ut.slice, strict=False))
+    if not isinstance(idx, ast.Subscript):
+        ck.missing(rule + '.neighbors', 'index of the bottleneck update is not <neighbours>[<selection>]: %s' % u(idx)[:120])
+        return
+    v = classify(idx.value, nb_forms, scope={nf, TN})
+    if v[0] == 'match':
+        v = ('match', {'_SEL': idx.slice})
+    ck.decide(v, rule + '.neighbors', mod, us, F, fi.xu(ut.slice, strict=False),
+              'edges are exactly the strictly positive entries of the row of the expanded node',
+              'the updated states must be (a selection of) the entries of net_flux[test_node, :] that are > 0: a tolerance test '
+              '(isclose) hides small positive fluxes, >= 0 follows non-edges, a column slice walks edges backwards')
+    if v[0] != 'match':
+        return
+    NBX = u(canon(idx.value))                       # canonical text of the neighbour index set
+    sel = v[1]['_SEL']
+    # the relaxed values: `<val>` = NF[<sel>] where NF is the clipped edge-flux array
+    val = fi.expand(us.value, strict=False)
+    if not (isinstance(val, ast.Subscript) and isinstance(val.value, ast.Name) and u(canon(val.slice)) == u(canon(sel))):
+        ck.missing(rule + '.update', 'value stored into %s is not <relaxed fluxes>[<same selection>]: %s' % (MF, u(val)[:120]))
+        return
+    NF = val.value.id
+    mask = sel.args[0] if isinstance(sel, ast.Call) and call_name(sel) in ('np.where', 'np.nonzero') and sel.args else sel
+    atoms = _and_atoms(mask)
+    strict = C('%s[%s] < %s' % (MF, NBX, NF))
+    notvis = {C('1 - %s[%s]' % (V, NBX)), C('~%s[%s]' % (V, NBX)), C('%s[%s] == 0' % (V, NBX)), C('np.logical_not(%s[%s])' % (V, NBX)), C('%s[%s] == False' % (V, NBX))}
+    texts = [u(a) for a in atoms]
+    rest = [t for t in texts if t != strict and t not in notvis]
+    if strict in texts and not rest:
+        ck.ok(rule + '.improve', mod, us, u(mask), 'a neighbour is updated only if its bottleneck strictly improves (and it is not finalised)')
+    else:
+        v = classify(mask, ['1 - %s[%s] & (%s[%s] < %s)' % (V, NBX, MF, NBX, NF), '~%s[%s] & (%s[%s] < %s)' % (V, NBX, MF, NBX, NF), '%s[%s] < %s' % (MF, NBX, NF)], scope={V, MF, NF, nf, TN})
+        if v[0] == 'match':
+            v = ('far', 0, None)
+        ck.decide(v, rule + '.improve', mod, us, F, u(mask)[:200], '',
+                  'the update set must be the neighbours with new_fluxes > min_fluxes[neighbors] (strict): '
+                  '< picks worse paths, >= re-queues nodes forever on ties')
+    # relaxed fluxes: NF = net_flux[TN, NB] (copy), clipped to MF[TN]
+    nfd = [s for s in assigns_to(loop, NF) if isinstance(s, ast.Assign)]
+    edge = ['%s[%s, %s]%s' % (nf, TN, NBX, sfx) for sfx in ('.flatten()', '.copy()', '', '.ravel()')] + ['np.array(%s[%s, %s])' % (nf, TN, NBX)]
+    clip_fun = ['np.minimum(%s, %s[%s])' % (e, MF, TN) for e in edge] + ['np.fmin(%s, %s[%s])' % (e, MF, TN) for e in edge] + \
+               ['np.minimum(%s[%s], %s)' % (MF, TN, e) for e in edge]
+    clip = [(s, t) for s, t in subscript_stores(loop, NF)]
+    if len(nfd) == 1 and classify(fi.expand(nfd[0].value), clip_fun)[0] == 'match' and not clip:
+        ck.ok(rule + '.relax', mod, nfd[0], u(nfd[0]), 'candidate = min(edge flux, upstream bottleneck)')
+    elif len(nfd) >= 1:
+        v = classify(fi.expand(nfd[0].value), edge, scope={nf, TN, MF})
+        ck.decide(v, rule + '.relax', mod, nfd[0], F, u(nfd[0]), 'candidate value = flux of the edge test_node -> neighbour', 'new_fluxes must be net_flux[test_node, neighbors]')
+        if len(clip) == 1:
+            cs, ct = clip[0]
+            m = ct.slice
+            m = m.args[0] if isinstance(m, ast.Call) and call_name(m) in ('np.where', 'np.nonzero') and m.args else m
+            v = classify(ast.Tuple(elts=[fi.expand(m), fi.expand(cs.value)], ctx=ast.Load()), ['(%s[%s] < %s, %s[%s])' % (MF, TN, NF, MF, TN)], scope={MF, TN, NF})
+            ck.decide(v, rule + '.relax', mod, cs, F, u(cs), 'path bottleneck = min(edge flux, upstream bottleneck)',
+                      'the candidate must be clipped to the bottleneck of the path so far: min(edge flux, min_fluxes[test_node])')
+        else:
+            alt = [s for s in nfd[1:] if classify(fi.expand(s.value), ['np.minimum(%s, %s[%s])' % (NF, MF, TN), 'np.fmin(%s, %s[%s])' % (NF, MF, TN),
+                                                                       'np.minimum(%s[%s], %s)' % (MF, TN, NF)])[0] == 'match']
+            if alt:
+                ck.ok(rule + '.relax', mod, alt[0], u(alt[0]), 'candidate clipped to the upstream bottleneck')
+            else:
+                ck.missing(rule + '.relax', 'clip of %s to %s[%s] not recognised' % (NF, MF, TN))
+    else:
+        ck.missing(rule + '.relax', 'definition of the relaxed flux array %s' % NF)
+    # predecessor written for the same index set; queue extended by it
+    idx_t = fi.xu(ut.slice, strict=False)
+    pn = [(s, t) for s, t in subscript_stores(loop) if t is not ut and fi.xu(t.slice, strict=False) == idx_t and fi.xu(s.value) == TN]
+    if len(pn) == 1 and isinstance(pn[0][1].value, ast.Name):
+        PN = pn[0][1].value.id
+        ck.ok(rule + '.update', mod, pn[0][0], u(pn[0][0]), 'bottleneck and predecessor are written together for the same neighbours')
+    else:
+        PN = None
+        other = [(s, t) for s, t in subscript_stores(loop) if t is not ut and fi.xu(s.value) == TN]
+        if other:
+            ck.bad(rule + '.update', mod, other[0][0], F, u(other[0][0]),
+                   'the predecessor store `%s` uses a different index set than the bottleneck store `%s`: '
+                   'the reported path then does not realise the reported flux' % (u(other[0][0]), u(us)))
+        else:
+            ck.missing(rule + '.update', 'predecessor store `<prev>[<same index set>] = %s` not found' % TN)
+    ext = [c for c in calls_in(loop) if isinstance(c.func, ast.Attribute) and c.func.attr == 'extend' and u(c.func.value) == Q]
+    if len(ext) == 1:
+        ck.check(fi.xu(ext[0].args[0], strict=False) == idx_t, rule + '.update', mod, ext[0], F, u(ext[0]), 'improved neighbours join the frontier',
+                 'the queue must be extended by exactly the updated neighbours (%s)' % idx_t[:80])
+    else:
+        ck.missing(rule + '.update', '`%s.extend(<updated neighbours>)` in the search loop' % Q)
+    if PN is not None:
+        pn0 = init_of(PN)
+        if pn0 is None:
+            ck.missing(rule + '.init', 'initialisation of %s' % PN)
+        else:
+            v = classify(fi.expand(pn0.value), ['np.ones(_N).astype(int) * -1', 'np.full(_N, -1, dtype=int)', 'np.full(_N, -1)', '-np.ones(_N, dtype=int)',
+                                                '-1 * np.ones(_N, dtype=int)', 'np.ones(_N, dtype=int) * -1', 'np.zeros(_N, dtype=int) - 1', '-np.ones(_N).astype(int)'], scope={nf, sources, sinks})
+            ck.decide(v, rule + '.init', mod, pn0, F, u(pn0), 'predecessor sentinel -1', 'the predecessor array must start at -1')
+
+    # --- reconstruction and reported flux
     r = returns_of(fn)
-    ok = len(r) == 1 and isinstance(r[0].value, ast.Tuple) and u(r[0].value.elts[0]) == 'np.array(top_path[::-1])' and \
-        u(r[0].value.elts[1]) == 'min_fluxes[top_path[0]]'
-    ck.check(ok, rule + '.report', mod, r[0] if r else fn, 'top_path', u(r[0]) if r else 'return',
-             'path reversed into source->sink order; flux = bottleneck recorded at the chosen sink',
-             'top_path must return (np.array(top_path[::-1]), min_fluxes[top_path[0]]) where top_path[0] is the chosen sink')
-    first = [c for c in calls_in(fn) if u(c.func) == 'top_path.append' and 'sinks' in u(c)]
-    ok = len(first) == 1 and u(first[0].args[0]) in ('int(%s[min_fluxes[%s].argmax()])' % (sinks, sinks), '%s[min_fluxes[%s].argmax()]' % (sinks, sinks),
-                                                      '%s[np.argmax(min_fluxes[%s])]' % (sinks, sinks))
-    ck.check(ok, rule + '.report', mod, first[0] if first else fn, 'top_path', u(first[0]) if first else 'sink choice',
-             'the sink with the largest bottleneck ends the path', 'the path must end at sinks[argmax(min_fluxes[sinks])]')
-    back = [l for l in fn.body if isinstance(l, ast.While) and l is not loop]
-    ok = len(back) == 1 and u(back[0].test) == 'previous_node[top_path[-1]] != -1' and \
-        any(u(c) == 'top_path.append(previous_node[top_path[-1]])' for c in calls_in(back[0]))
-    ck.check(ok, rule + '.report', mod, back[0] if back else fn, 'top_path', u(back[0].test) if back else 'back-trace',
-             'path rebuilt by following predecessor links to a source', 'the back-trace must follow previous_node until -1')
+    if len(r) != 1 or not isinstance(r[0].value, ast.Tuple) or len(r[0].value.elts) != 2:
+        ck.missing(rule + '.report', 'single `return <path>, <flux>`')
+        return
+    rp, rf = r[0].value.elts
+    best = ['int(%s[%s[%s].argmax()])' % (sinks, MF, sinks), '%s[%s[%s].argmax()]' % (sinks, MF, sinks)]
+    # the path list P: reversed in the return value
+    vb = classify(fi.expand(rp), ['np.array(_P[::-1])', 'np.asarray(_P[::-1])', 'np.array(list(reversed(_P)))', 'np.array(_P)[::-1]'], near=3)
+    if vb[0] != 'match' or not isinstance(vb[1]['_P'], ast.Name):
+        ck.decide(vb if vb[0] != 'match' else 'far', rule + '.report', mod, r[0], F, u(r[0]), '', 'the path collected sink->source must be returned reversed (source->sink)')
+        return
+    P = vb[1]['_P'].id
+    first = [c for c in calls_in(fn) if isinstance(c.func, ast.Attribute) and c.func.attr == 'append' and u(c.func.value) == P and not _in_loop(mod, c, fn)]
+    p0 = init_of_any(fn, P)
+    first_expr = None
+    if first:
+        first_expr = first[0].args[0]
+    elif p0 is not None and isinstance(p0.value, ast.List) and len(p0.value.elts) == 1:
+        first_expr = p0.value.elts[0]
+    if first_expr is None:
+        ck.missing(rule + '.report', 'first element (chosen sink) of the path list %s' % P)
+        return
+    v = classify(fi.expand(first_expr, stop=(sinks,)), best, scope={sinks, MF})
+    ck.decide(v, rule + '.report', mod, first[0] if first else p0, F, u(first_expr), 'the sink with the largest bottleneck ends the path',
+              'the path must end at sinks[argmax(min_fluxes[sinks])]')
+    flux_ok = classify(fi.expand(rf, stop=(sinks,)), ['%s[%s[0]]' % (MF, P)] + ['%s[%s]' % (MF, b) for b in best], scope={MF, P, sinks})
+    ck.decide(flux_ok, rule + '.report', mod, r[0], F, u(rf), 'flux = bottleneck recorded at the chosen sink',
+              'the reported flux must be min_fluxes at the chosen sink (the first element of the reversed path)')
+    if PN is not None:
+        back = [l for l in walk_local(fn) if isinstance(l, ast.While) and l is not loop]
+        okb = False
+        for b in back:
+            t1 = classify(b.test, ['%s[%s[-1]] != -1' % (PN, P), '-1 != %s[%s[-1]]' % (PN, P), '0 <= %s[%s[-1]]' % (PN, P)])[0] == 'match'
+            a1 = any(isinstance(c.func, ast.Attribute) and c.func.attr == 'append' and u(c.func.value) == P and fi.xu(c.args[0]) == '%s[%s[-1]]' % (PN, P) for c in calls_in(b))
+            if t1 and a1:
+                okb = True
+                ck.ok(rule + '.report', mod, b, u(b.test), 'path rebuilt by following predecessor links to a source')
+        if not okb:
+            ck.missing(rule + '.report', 'back-trace loop `while %s[%s[-1]] != -1: %s.append(%s[%s[-1]])` not recognised' % (PN, P, P, PN, P))
+
+
+def _inside(mod, node, outer):
+    p = mod.parent.get(node)
+    while p is not None:
+        if p is outer:
+            return True
+        p = mod.parent.get(p)
+    return False
+
+
+def _in_loop(mod, node, fn):
+    p = mod.parent.get(node)
+    while p is not None and p is not fn:
+        if isinstance(p, (ast.For, ast.While)):
+            return True
+        p = mod.parent.get(p)
+    return False
+
+
+def init_of_any(fn, name):
+    ds = [s for s in fn.body if isinstance(s, ast.Assign) and len(s.targets) == 1 and u(s.targets[0]) == name]
+    return ds[0] if ds else None
+
+
+def _and_atoms(mask):
+    """Conjuncts of an elementwise mask built with & / np.logical_and."""
+    if isinstance(mask, ast.BinOp) and isinstance(mask.op, ast.BitAnd):
+        return _and_atoms(mask.left) + _and_atoms(mask.right)
+    if isinstance(mask, ast.Call) and call_name(mask) == 'np.logical_and' and len(mask.args) == 2:
+        return _and_atoms(mask.args[0]) + _and_atoms(mask.args[1])
+    return [mask]
 
 
 def d3_removal(ck, mod):
